@@ -268,3 +268,31 @@ Proof.
   unfold perm_ok. intros H. apply andb_true_iff in H. destruct H as [H _].
   apply is_perm_of_Permutation. exact H.
 Qed.
+
+(* the window predicates that the correspondence check computes from the table reported
+   by the implementation ([ls_flags]) are the ones of the model's [lookup_score] *)
+Lemma ls_flags_spec {T} (N : NumOps T) G bg p mn mx o :
+  lookup_score N G bg p mn mx = Ok o ->
+  ls_flags N p (last (ls_rows o) []) = (ls_exhausted o, ls_total_lt o).
+Proof.
+  unfold lookup_score, ls_flags. intros H.
+  destruct (n_isnan N (g_gran G)); [discriminate|].
+  apply rbind_ok in H. destruct H as [rowsq [Hd H]].
+  set (lastm := last rowsq []) in *.
+  destruct (length lastm) as [|top] eqn:Elen; [discriminate|].
+  apply rbind_ok in H. destruct H as [[[riter sum] pvs] [Hloop H]].
+  apply rbind_ok in H. destruct H as [[[[a ae] pvs'] exh] [Hsel H]].
+  apply rbind_ok in H. destruct H as [pa [Hpa H]].
+  apply rbind_ok in H. destruct H as [pe [Hpe H]].
+  inversion H; subst o; clear H. cbn [ls_rows ls_exhausted ls_total_lt]. fold lastm.
+  rewrite Elen, Hloop.
+  assert (Hexh : exh = Nat.eqb riter 0 && negb (gt N sum p)).
+  { destruct (gt N sum p) eqn:Hgt.
+    - apply rbind_ok in Hsel. destruct Hsel as [x [_ Hsel]].
+      apply rbind_ok in Hsel. destruct Hsel as [y [_ Hsel]]. inversion Hsel. rewrite andb_false_r. reflexivity.
+    - destruct riter as [|r'].
+      + apply rbind_ok in Hsel. destruct Hsel as [x [_ Hsel]]. inversion Hsel. reflexivity.
+      + apply rbind_ok in Hsel. destruct Hsel as [x [_ Hsel]].
+        apply rbind_ok in Hsel. destruct Hsel as [y [_ Hsel]]. inversion Hsel. reflexivity. }
+  rewrite <- Hexh. reflexivity.
+Qed.
